@@ -70,6 +70,7 @@ type Exec struct {
 	tokens   []Value // opaque encoder tokens (base64 etc.)
 	syncMaps map[string]*MapV // contents of sync.Map objects
 	syncPools map[string][]Value // stashes of sync.Pool objects
+	timerResets map[string]int // re-arm count of default-model timers
 	shared   map[string]bool
 	regions  map[string][]knownRegion
 	allowPanic []string
